@@ -71,6 +71,10 @@ def cadPlane4 (a b c d : α) : MSurf α :=
   let a := a / n; let b := b / n; let c := c / n; let d := d / n
   mkPlane ⟨0 + a * d, 0 + b * d, 0 + c * d⟩ ⟨a, b, c⟩
 
+/-- the `p` card: `A/c` with `c = √(A²+B²+C²) = 0` raises `ZeroDivisionError` in Python -/
+def planeCard (a b c d : α) : Option (MSurf α) :=
+  if Transc.sqrt (a * a + b * b + c * c) == 0 then none else some (cadPlane4 a b c d)
+
 /-- `xx` / `yy` / `zz`: point-defined axisymmetric surfaces; `axis` = 0, 1, 2 -/
 def cadAxisym (axis : Nat) (ps : List α) : Option (MSurf α) :=
   let unitv : V3 α := match axis with | 0 => ⟨1, 0, 0⟩ | 1 => ⟨0, 1, 0⟩ | _ => ⟨0, 0, 1⟩
@@ -91,10 +95,10 @@ def cadAxisym (axis : Nat) (ps : List α) : Option (MSurf α) :=
 /-- `normalize_surface` + `mcnp2cad[mnemonic]` (the parameter counts are those of `N_PARAMS`) -/
 def cadOf (e1 e2 : α) (mn : String) (ps : List α) : Option (MSurf α) :=
   match mn, ps with
-  | "p", [a, b, c, d] => some (cadPlane4 a b c d)
+  | "p", [a, b, c, d] => planeCard a b c d
   | "p", [x1, y1, z1, x2, y2, z2, x3, y3, z3] =>
       match planeFromPoints e1 e2 ⟨x1, y1, z1⟩ ⟨x2, y2, z2⟩ ⟨x3, y3, z3⟩ with
-      | some [a, b, c, d] => some (cadPlane4 a b c d)
+      | some [a, b, c, d] => planeCard a b c d
       | _ => none
   | "px", [d] => some (mkPlane ⟨d, 0, 0⟩ ⟨1, 0, 0⟩)
   | "py", [d] => some (mkPlane ⟨0, d, 0⟩ ⟨0, 1, 0⟩)
